@@ -118,23 +118,38 @@ def holdsField (field : String) (s : Str) (total : Int) (impl : String) : Option
 
 def propFields : List String := ["sz", "sp", "ui", "vi", "vl", "vd", "vf", "vm", "vb", "vr", "vs"]
 
+/-- the harness's record for one string: tab-separated fields in this order, `vs` (which echoes the
+    input and may itself contain tabs) last -/
+def recFields : List String := ["sz", "sp", "ui", "vi", "vl", "vd", "vf", "vm", "vb", "vr", "si", "sl", "su", "sf", "sd", "sL", "vs"]
+
+def recOf (r : Json) : List (String × String) :=
+  let parts := (asStr r).splitOn "\t"
+  let head := parts.take 16
+  let tail := "\t".intercalate (parts.drop 16)
+  recFields.zip (head ++ [tail])
+
+def recGet (r : List (String × String)) (f : String) : String :=
+  match r.find? (fun kv => kv.1 == f) with
+  | some kv => kv.2
+  | none => ""
+
 def handleStrs (sc tr : Json) : Json :=
   let id := jstr sc "id"
   let total : Int := (jstr sc "total").toInt?.getD 0
   let ss := jstrs sc "ss"
   let rs := jarr tr "rs"
-  let pairs := ss.zip rs
+  let pairs := ss.zip (rs.map recOf)
   let diffs := pairs.flatMap fun (str, r) =>
     let s := str.toList
     let tol := if sizeExactDomain s then 0 else (sizePieces s).length
     (modelStr s total).filterMap fun (f, m) =>
-      let i := jstr r f
+      let i := recGet r f
       if i == m then none
       else if tol > 0 && (f == "sz" || f == "sp") && (closeTo i m tol || i == "R" || m == "R") then none
       else some (Json.mkObj [("s", Json.str str), ("f", Json.str f), ("model", Json.str m), ("impl", Json.str i)])
   let viols := pairs.flatMap fun (str, r) =>
     propFields.filterMap fun f =>
-      match holdsField f str.toList total (jstr r f) with
+      match holdsField f str.toList total (recGet r f) with
       | some why => some (str, f, why)
       | none => none
   let inexact := (ss.filter fun str => !sizeExactDomain str.toList).length
@@ -250,8 +265,30 @@ def engineAgrees (m : EngineC) (i : Json) : Bool :=
 
 /-- an accepted plugin: valid per the pinned table, instantiated under its name with precisely the
     given arguments, each read argument holding its valid reading -/
+def kindName (k : ArgKind) : String := ((toString (repr k)).splitOn ".").getLast!
+
+/-- why an accepted plugin is not valid (input-class key); `Spec.pluginValid` stays the authority -/
+def invalidWhy (env : Env) (hook : Bool) (p : IRPlugin) : List String :=
+  if Spec.pluginValid env hook p then []
+  else if p.name.isEmpty then ["unnamed-plugin-accepted"]
+  else
+    match schemaOf Spec.declaredSchemas hook p.name with
+    | none => ["unknown-plugin-accepted:" ++ String.ofList p.name]
+    | some sch =>
+      let d := Spec.declaredFor sch p.args
+      let missing := d.args.filter (fun a => a.required && !hasArg p.args a.name)
+      let why := (if missing.isEmpty then [] else ["missing-required-accepted:" ++ String.ofList p.name]) ++
+        p.args.filterMap fun kv =>
+          if Spec.isExtern d kv.1 then none
+          else match d.args.find? (fun a => a.name.toList == kv.1) with
+            | none => some "undeclared-arg-accepted"
+            | some a =>
+              if (Spec.argReading env sch d p.args kv).isSome then none
+              else some ("invalid-value-accepted:" ++ kindName a.kind ++ ":" ++ String.ofList p.name ++ "." ++ String.ofList kv.1)
+      if why.isEmpty then ["invalid-plugin-accepted:" ++ String.ofList p.name] else why
+
 def pluginViol (env : Env) (hook : Bool) (p : IRPlugin) (impl : Json) : List String :=
-  (if Spec.pluginValid env hook p then [] else ["invalid-plugin-accepted:" ++ String.ofList p.name]) ++
+  invalidWhy env hook p ++
   (if jstr impl "name" == String.ofList p.name then [] else ["plugin-order"]) ++
   (if hook || sameArgs p.args (jobj impl "args") then [] else ["args-not-as-given"]) ++
   ((Spec.expectedVals env hook p).filterMap fun (k, ov) =>
@@ -295,6 +332,7 @@ def classOf (viol : List String) : String :=
   | v :: _ =>
     match v.splitOn ":" with
     | "escape" :: rest => "escape:" ++ ":".intercalate (rest.drop 1)
+    | "invalid-value-accepted" :: kind :: _ => "invalid-value-accepted:" ++ kind
     | c :: _ => c
     | [] => v
   | [] => ""
